@@ -431,6 +431,17 @@ class Engine:
             return C(int(o['bits']), ts)
         if 'str' in o:
             return C(('s', o['str']), ts)
+        if 'bytes' in o and o.get('mem_relocs') and t.get('k') in ('ref', 'ptr'):
+            # a constant wide reference (`const ORIGIN: &CStr`, `&[u8]`, `&str`): pointer word + length word; the pointer
+            # leads to other constant bytes
+            mr = {int(r['off']): r['bytes'] for r in o['mem_relocs']}
+            raw = bytes.fromhex(o['bytes'])
+            if 0 in mr and len(raw) in (8, 16):
+                start = int.from_bytes(raw[:8], 'little')
+                tgt = bytes.fromhex(mr[0])[start:]
+                if len(raw) == 16:
+                    tgt = tgt[:int.from_bytes(raw[8:16], 'little')]
+                return ('ref', (('K', tgt.hex(), (t['inner'], crate)), ()))
         if 'bytes' in o:
             relocs = {int(r['off']): r['fn'] for r in (o.get('relocs') or [])}
             return self.decode_bytes(o['bytes'], t, crate, 0, relocs or None)
